@@ -423,9 +423,9 @@ class XBuffer(ABC):
         if sizepa > self.capacity:
             self.grow(sizepa)
         elif self.grow_step is not None:
-            self.grow(self.grow_step)
+            self.grow(max(self.grow_step, sizepa, 1))
         else:
-            self.grow(self.capacity)
+            self.grow(max(self.capacity, 1))
 
         # try again
         return self.allocate(size, align=align)
